@@ -147,6 +147,26 @@ def search(ck, tier, seed):
                         dd = y[1:] - y[:-1]
                         if bool((dd < -(ttol if (fam == "cubic" and inverse) else 1e-12 * max(1.0, B))).any()):
                             ck.finding("spline-tails:not-monotone-across-bound:%s" % tag, "K=%d B=%g params=%s" % (K, B, kind), case)
+                        # the same values in another memory layout (a transposed, i.e. column-major, batch of two features): the
+                        # transformer is a function of the VALUES; masked writes through a flattened copy would be lost
+                        n_ = x.shape[0]
+                        x2 = torch.stack([x, x.flip(0)], 0).t()                 # [n, 2], non-contiguous view
+                        kw2 = {k_: v_[None, None, :].expand(n_, 2, -1).clone() for k_, v_ in params.items()}
+                        kw2.update(tails="linear", tail_bound=B)
+                        if mins:
+                            kw2.update(mins)
+                        r2 = attempt(sh.spline_fn(fam, True), inputs=x2, inverse=inverse, **kw2)
+                        if r2[0] == "ok":
+                            y2 = r2[1][0]
+                            def agree(u_, v_):       # equal, both NaN (the cubic inverse's recorded instability), or within the tolerance
+                                return bool((((u_ - v_).abs() <= ttol) | (torch.isnan(u_) & torch.isnan(v_)) | (u_ == v_)).all())
+                            same, same2 = agree(y2[:, 0], y), agree(y2[:, 1], y.flip(0))
+                            if not (same and same2):
+                                ck.finding("spline-tails:depends-on-memory-layout:%s" % tag,
+                                           "K=%d B=%g params=%s: a column-major batch gives %s, the same values row-major %s"
+                                           % (K, B, kind, [round(v, 6) for v in y2[:, 0].tolist()], [round(v, 6) for v in y.tolist()]), case)
+                        elif r[0] == "ok":
+                            ck.finding("spline-tails:raises:%s:%s" % (tag, r2[1]), "K=%d B=%g params=%s, column-major inputs: %s" % (K, B, kind, r2[2]), case)
 
 
 def run(tier, seed):
